@@ -84,6 +84,7 @@ var sqlCaseSites = []string{
 	"@a := 1 or", "1 or true", "1 or false is null", "1 or null is null", "binary 1 or", "1 in (select 1)", "exists(select 1)", "1 union select load_file('a')", "1 or ascii(1)",
 	"-1' and 1=1 union/* foo */select load_file('/etc/passwd')--", "1' or '1'='1", "x' and sleep(5) -- ", "1\" or 1=1 #", "1 /*!union*/ select", "{a b} or 1", "{`a` or",
 	"1 or 0xabcdefabcdefabcdefabcdefabcdefabcdefabcdefabcdef=1", "select 0x6161616161616161616161616161616161616161616161fe from t", "1 or 0b0101010101010101010101010101010101010101=1", "x'abcdefabcdefabcdefabcdefabcdefabcdefabcdef' or 1",
+	"1 or @database()", "1 or `user`()", "`current_user`() or 1", "@user() or 1", "1 or @@version()", "1 or @`database`()", "1 and `version`()=1", "select `Version`()", "1 or `localtime`()", "@current_date() or 1",
 	"1 or pg_sleep(5)", "1 or md5(1)=2", "1 union select load_file(1),utl_http.request(2)", "1 and sys_context(1,2)", "1 or to_base64(1)", "1 or sha1(2)", "x' or utl_inaddr.get_host_name(1)='",
 	"\\N or 1", "\\n or 1", "$t$a$t$ or 1", "$T$a$T$ or 1", "1 --sp_password", "1 --SP_PASSWORD", "q'aXa' or 1", "q'AxA' or 1", "1 or q'zaz'='a",
 }
@@ -270,6 +271,8 @@ var htmlCaseSites = []string{
 	"x\" onclick=y", "x` onclick=y", "onerror=alert(1)>", "'><script>", "</script>", "</iframe x", "<a b=c onclick=d>", "<img/src/onerror=x>",
 	// real-world continuations of the schemes
 	"<a href=data:image/svg+xml,x>", "<img src=data:image/png;base64,x>", "<a href=data:text/html;base64,x>", "<a href=javascript:alert(1)//>", "<a href=vbscript:msgbox(1)>", "<a href=view-source:http://x/>", "<a href=data:application/xhtml+xml,x>",
+	// named character references inside schemes (literal text for this decoder, whatever their letter case)
+	"<a href=ja&NewLine;vascript:x>", "<a href=java&Tab;script:x>", "<a href=javascript&colon;x>", "<a href=d&NewLine;ata:x>", "<a href=&Tab;javascript:x>", "<a href=vbs&NewLine;cript:x>",
 	// elements with their own tokenizer content model in HTML5 (what a "more conformant" tokenizer would special-case), followed by a trigger
 	"<plaintext><script>", "<textarea><script>", "<title><script>", "<xmp><script>", "<noembed><script>", "<noframes><script>", "<noscript><script>", "<template><script>", "<select><script>", "<math><script>", "<svg><script>",
 	"<plaintext>x' onclick=y", "<textarea>' onerror=x ", "<title></title><iframe>", "<xmp></xmp><a onclick=x>", "</plaintext><script>", "</textarea><style>", "<script></script><embed>", "<style></style><base>",
